@@ -145,16 +145,16 @@ def call_args(call):
 _MODULE_COUNTER = [0]
 
 
-def build_module(sigs, scratch, with_methods=True, body=None, prefix="vfsig"):
+def build_module(sigs, scratch, with_methods=True, body=None, prefix="vfsig", header=""):
     """Write one module defining f_<i> (and class K with methods m_<i>) for
     every signature; import it; return (module, [functions], [bound methods])."""
     _MODULE_COUNTER[0] += 1
     name = "%s_%d_%d" % (prefix, os.getpid(), _MODULE_COUNTER[0])
-    lines = []
+    lines = [header] if header else []
     for i, sig in enumerate(sigs):
         lines.append("def f_%d(%s):\n    %s\n" % (i, sig_source(sig), body or "return None"))
     if with_methods:
-        lines.append("class K:\n    pass\n")
+        lines.append("class K:\n    def __init__(self, tag=None):\n        self.vf_tag = tag\n")
         for i, sig in enumerate(sigs):
             src = sig_source(sig)
             lines.append("    def m_%d(self%s):\n        %s\n" % (i, (", " + src) if src else "", body or "return None"))
